@@ -345,3 +345,36 @@ Definition snapshot_ok (s : gstate) (t idx idxt : nat) : bool :=
   | _ => (idx <=? length (gcommit s)) && opt_nat_eqb (term_at (gcommit s) idx) (Some idxt)
   end.
 Definition gcommit_of (s : gstate) : list entry := gcommit s.
+
+(* ---------- leader completeness without the overlap hypothesis: two per-step conditions ---------- *)
+
+(* at an election: if the committed log was last extended in an earlier term, one of the voters that
+   elect c has acknowledged the whole committed log (in the term of its last entry) *)
+Definition elect_lc_ok (s : gstate) (c : nat) : bool :=
+  let n := nodes s c in
+  let g := gcommit s in
+  match g with
+  | [] => true
+  | _ => (cur n <=? lastterm g) ||
+         existsb (fun x => grantedb s (cur n) c x && ackedb s (lastterm g) (length g) x) (voters (conf n))
+  end.
+
+(* at a commit by the leader of term t: every leader already elected for a later term has, among the
+   voters that elected it, one that acknowledged the committed index in term t *)
+Definition commit_lc_ok (s : gstate) (c k : nat) : bool :=
+  let t := cur (nodes s c) in
+  forallb (fun r => let '(u, _, _, q) := r in negb (t <? u) || existsb (ackedb s t k) q) (leaders s).
+
+Definition lc_label_ok (s : gstate) (l : label) : bool :=
+  match l with
+  | L_BecomeLeader c => elect_lc_ok s c
+  | L_AdvanceCommit c k => commit_lc_ok s c k
+  | _ => true
+  end.
+
+(* a run in which, in addition, these conditions hold at every step *)
+Fixpoint run_lc (s : gstate) (ls : list label) : option gstate :=
+  match ls with
+  | [] => Some s
+  | l :: r => if lc_label_ok s l then match apply_label s l with Some s' => run_lc s' r | None => None end else None
+  end.
